@@ -251,7 +251,7 @@ func checkC20(c PoolCase, o *Obs) error {
 		if pc.Fault != nil {
 			st.tr.SetWriteFault(pc.Fault)
 		}
-		steps, nEx := steerWriteProgram("C20", pc.W, pc.Steps)
+		steps, nEx := steerWriteProgram("C20", poolSteerCfg(c, i), pc.Steps)
 		o.Excluded(nEx)
 		id := i
 		go func() {
@@ -409,7 +409,7 @@ func checkC20(c PoolCase, o *Obs) error {
 		if err != nil {
 			return fmt.Errorf("connection %d: %v", i, err)
 		}
-		if err := checkCalls(st.tw, stepsOf(pc)); err != nil {
+		if err := checkCalls(st.tw, stepsOf(c, i)); err != nil {
 			return fmt.Errorf("connection %d: %v", i, err)
 		}
 		if err := matchWire(msgs, st.tw.Sent); err != nil {
@@ -439,7 +439,22 @@ func checkC20(c PoolCase, o *Obs) error {
 	return nil
 }
 
-func stepsOf(pc PoolConn) []WStep {
-	s, _ := steerWriteProgram("C20", pc.W, pc.Steps)
+func stepsOf(c PoolCase, i int) []WStep {
+	s, _ := steerWriteProgram("C20", poolSteerCfg(c, i), c.Conns[i].Steps)
 	return s
+}
+
+// poolSteerCfg is connection i's configuration as far as the listed known
+// finding (SigCtlReadFromFull) goes: on a pool shared by connections of
+// different sizes, any of them may be handed the 125-payload-byte buffer that a
+// connection with WriteBufferSize in 1..125 returned, and then meets the same
+// refusal at the same call site.
+func poolSteerCfg(c PoolCase, i int) ConnCfg {
+	cfg := c.Conns[i].W
+	for _, o := range c.Conns {
+		if o.W.WriteBuf >= 1 && o.W.WriteBuf <= 125 {
+			cfg.WriteBuf = o.W.WriteBuf
+		}
+	}
+	return cfg
 }
